@@ -69,11 +69,7 @@ Theorem C08_canary_always_works :
       exists h', run h [WsAdd bid_a a; Register a t cap; WsAdd bid_b b; Register b t cap; Broadcast a msg] = HOk h' /\
                  clk b (clients h') = Some (mkclient t cap [msg] true) /\
                  clk a (clients h') = Some (mkclient t cap [] true).
-Proof.
-  intros evs h F R. destruct (run_ok evs hub_init [] [] hinv_init F) as [h1 [ua [ur [R1 [HI _]]]]].
-  rewrite R in R1. inversion R1; subst h1. exists ua, ur. split; [exact HI|].
-  intros a b t bid_a bid_b cap msg. exact (canary_works h ua ur a b t bid_a bid_b cap msg HI).
-Qed.
+Proof. exact canary_always_works. Qed.
 Print Assumptions C08_canary_always_works.
 
 (* every history of session / connect / disconnect / deny / allow / send calls over any bookings,
